@@ -609,6 +609,24 @@ func init() {
 				i.S, slArr(r).S, slArr(s).S, i.S, slLen(s).S, slArr(r).S, slArr(s).S, slArr(s).S))
 			return []Term{r}
 		}},
+		// slices.SortFunc(s, cmp): sorts in place. Modelled as: s becomes some permutation of itself
+		// (same length, every old element has a place in the result and vice versa). The order
+		// established by cmp is NOT modelled: claims must not depend on it.
+		"slices.SortFunc": {pure: false, fn: func(fv *FuncVerifier, call *ast.CallExpr, args []Term, st *State) []Term {
+			s := args[0]
+			if s.Sort == nil || s.Sort.Kind != KSlice {
+				reject("slices.SortFunc over an unmodelled slice at %s", fv.pos(call.Pos()))
+			}
+			r := fv.u.freshConst("sorted", s.Sort)
+			st.assume(mk(sortBool, "(= %s %s)", slLen(r).S, slLen(s).S))
+			st.assume(mk(sortBool, "(forall ((k!c Int)) (! (=> (and (<= 0 k!c) (< k!c %s)) (exists ((j!c Int)) (and (<= 0 j!c) (< j!c %s) (= (select %s k!c) (select %s j!c))))) :pattern ((select %s k!c))))",
+				slLen(r).S, slLen(s).S, slArr(r).S, slArr(s).S, slArr(r).S))
+			st.assume(mk(sortBool, "(forall ((k!c Int)) (! (=> (and (<= 0 k!c) (< k!c %s)) (exists ((j!c Int)) (and (<= 0 j!c) (< j!c %s) (= (select %s j!c) (select %s k!c))))) :pattern ((select %s k!c))))",
+				slLen(s).S, slLen(r).S, slArr(r).S, slArr(s).S, slArr(s).S))
+			fv.assign(call.Args[0], r, st)
+			fv.u.note("slices.SortFunc modelled as an arbitrary permutation (the order it establishes is not modelled)")
+			return nil
+		}},
 		"slices.Delete": {pure: false, fn: func(fv *FuncVerifier, call *ast.CallExpr, args []Term, st *State) []Term {
 			s, i, j := args[0], args[1], args[2]
 			fv.oblige(st, "safe:slice", fmt.Sprint(fv.counter("slice")), and(mk(sortBool, "(<= 0 %s)", i.S), mk(sortBool, "(<= %s %s)", i.S, j.S), mk(sortBool, "(<= %s %s)", j.S, slLen(s).S)), call.Pos(), "slices.Delete range in bounds")
@@ -646,23 +664,33 @@ func (fv *FuncVerifier) execRangeMap(s *ast.RangeStmt, ls *LoopSpec, ord int, la
 	seen := types.NewVar(s.Pos(), nil, "seen", types.Typ[types.Bool])
 	curKey := types.NewVar(s.Pos(), nil, "rk", types.Typ[types.Int])
 	st.vars[seen] = mk(seenSort, "((as const %s) false)", seenSort.Name)
+	// __rc(n) of a map range loop: the number of completed iterations. The loop visits every key
+	// of the entry-time key set exactly once, so the count stays below len(map) while the loop
+	// runs and equals it at exit.
+	cnt := types.NewVar(s.Pos(), nil, "rcount", types.Typ[types.Int])
+	st.vars[cnt] = Term{"0", sortInt}
+	card0 := fv.u.defineConst("card0", ite(eq(m, Term{"0", sortInt}), Term{"0", sortInt}, fv.mapCard(m, st)))
+	fv.rcStack = append(fv.rcStack, cnt)
+	defer func() { fv.rcStack = fv.rcStack[:len(fv.rcStack)-1] }()
 	fv.seenStack = append(fv.seenStack, seen)
 	defer func() { fv.seenStack = fv.seenStack[:len(fv.seenStack)-1] }()
 	fv.rmStack = append(fv.rmStack, m)
 	defer func() { fv.rmStack = fv.rmStack[:len(fv.rmStack)-1] }()
 	fv.u.note("range over map: invariant proved for an arbitrary unvisited key (ghost set __seen), iterating over the entry-time key set")
 	cfg := &loopCfg{
-		loop: s, body: s.Body, ls: ls, ord: ord, label: label, extraMods: []types.Object{seen},
+		loop: s, body: s.Body, ls: ls, ord: ord, label: label, extraMods: []types.Object{seen, cnt},
 		autoInv: func(st *State) Term {
-			return mk(sortBool, "(forall ((k!c %s)) (=> (select %s k!c) (select %s k!c)))", m.Sort.Key.Name, st.vars[seen].S, dom0.S)
+			return and(mk(sortBool, "(forall ((k!c %s)) (=> (select %s k!c) (select %s k!c)))", m.Sort.Key.Name, st.vars[seen].S, dom0.S),
+				mk(sortBool, "(and (<= 0 %s) (<= %s %s))", st.vars[cnt].S, st.vars[cnt].S, card0.S))
 		},
 		condSetup: func(st *State) Term {
 			k := fv.u.freshConst("rk", m.Sort.Key)
 			st.vars[curKey] = k
-			return and(sel(dom0, k, sortBool), not(sel(st.vars[seen], k, sortBool)))
+			return and(sel(dom0, k, sortBool), not(sel(st.vars[seen], k, sortBool)), mk(sortBool, "(< %s %s)", st.vars[cnt].S, card0.S))
 		},
 		exitCond: func(st *State) Term {
-			return mk(sortBool, "(forall ((k!c %s)) (! (=> (select %s k!c) (select %s k!c)) :pattern ((select %s k!c))))", m.Sort.Key.Name, dom0.S, st.vars[seen].S, dom0.S)
+			return and(mk(sortBool, "(forall ((k!c %s)) (! (=> (select %s k!c) (select %s k!c)) :pattern ((select %s k!c))))", m.Sort.Key.Name, dom0.S, st.vars[seen].S, dom0.S),
+				mk(sortBool, "(= %s %s)", st.vars[cnt].S, card0.S))
 		},
 		pre: func(st *State) {
 			k := st.vars[curKey]
@@ -679,6 +707,7 @@ func (fv *FuncVerifier) execRangeMap(s *ast.RangeStmt, ls *LoopSpec, ord int, la
 		},
 		post: func(st *State) *State {
 			st.vars[seen] = fv.def("seen", store(st.vars[seen], st.vars[curKey], boolT(true)))
+			st.vars[cnt] = fv.def("rcount", mk(sortInt, "(+ %s 1)", st.vars[cnt].S))
 			return st
 		},
 	}
@@ -686,6 +715,7 @@ func (fv *FuncVerifier) execRangeMap(s *ast.RangeStmt, ls *LoopSpec, ord int, la
 	if res != nil {
 		delete(res.vars, seen)
 		delete(res.vars, curKey)
+		delete(res.vars, cnt)
 	}
 	return res
 }
